@@ -472,6 +472,9 @@ func execBuild(t []string) string {
 	if len(t) >= 1 && t[0] == "copydata" {
 		return execCopyData(t)
 	}
+	if len(t) == 7 && t[0] == "copygrow" {
+		return execCopyData(t)
+	}
 	if len(t) == 3 && t[0] == "alloc" {
 		return execAlloc(t[1], t[2])
 	}
@@ -901,9 +904,26 @@ func execAlloc(spec, sizes string) string {
 // element idx of a list of n elements of dw bytes each (a primitive list for dw 1, 2, 4; a composite list else) that
 // holds <old>, with an 8-byte object (0xcc…) allocated right behind it.  Output: the list's bytes and the object's after
 // the copy (Model.CopyStruct.copyInto).
+//
+// "build copygrow <src hex> <dw> <n> <idx> <old hex> <bloblen>" is the same with whole-word sources and destinations that
+// also have one pointer: the source's points to a Data blob of bloblen bytes, whose deep copy makes the destination's
+// single-segment arena grow (move) in the middle of copyStruct.  Output: the same bytes, then "|ok" iff the copied element's
+// pointer reads back the blob.
 func execCopyData(t []string) string {
+	blob := -1
+	if len(t) == 7 && t[0] == "copygrow" {
+		blob, _ = strconv.Atoi(t[6])
+		if blob < 0 {
+			return "bad-op"
+		}
+		t = t[:6]
+	}
 	if len(t) != 6 {
 		return "bad-op"
+	}
+	npc := uint16(0)
+	if blob >= 0 {
+		npc = 1
 	}
 	unhex := func(s string) ([]byte, bool) {
 		if s == "-" {
@@ -949,8 +969,21 @@ func execCopyData(t []string) string {
 		if len(src)%8 != 0 {
 			return "bad-op"
 		}
-		s, err = capnp.NewStruct(sseg, capnp.ObjectSize{DataSize: capnp.Size(len(src))})
+		s, err = capnp.NewStruct(sseg, capnp.ObjectSize{DataSize: capnp.Size(len(src)), PointerCount: npc})
 		if err != nil {
+			return "builderr"
+		}
+	}
+	var blobBytes []byte
+	if blob >= 0 {
+		if len(src)%8 != 0 || dw%8 != 0 {
+			return "bad-op"
+		}
+		blobBytes = make([]byte, blob)
+		for k := range blobBytes {
+			blobBytes[k] = byte(k*7 + 1)
+		}
+		if err := s.SetData(0, blobBytes); err != nil {
 			return "builderr"
 		}
 	}
@@ -968,7 +1001,7 @@ func execCopyData(t []string) string {
 		if dw%8 != 0 {
 			return "bad-op"
 		}
-		l, err = capnp.NewCompositeList(dseg, capnp.ObjectSize{DataSize: capnp.Size(dw)}, int32(n))
+		l, err = capnp.NewCompositeList(dseg, capnp.ObjectSize{DataSize: capnp.Size(dw), PointerCount: npc}, int32(n))
 	}
 	if err != nil {
 		return "builderr"
@@ -994,6 +1027,13 @@ func execCopyData(t []string) string {
 	}
 	for k := 0; k < 8; k++ {
 		out = append(out, behind.At(k))
+	}
+	if blob >= 0 {
+		p, err := l.Struct(idx).Ptr(0)
+		if err != nil || !bytes.Equal(p.Data(), blobBytes) {
+			return lib.Hex(out) + "|blob-differs"
+		}
+		return lib.Hex(out) + "|ok"
 	}
 	return lib.Hex(out)
 }
@@ -1409,6 +1449,21 @@ func genBuild(rec *lib.Rec, r *lib.Rng, thorough bool, which string) {
 				}
 				rec.Op("M", "build copydata "+hx(sb)+" "+strconv.Itoa(dwd)+" "+strconv.Itoa(nn)+" "+strconv.Itoa(r.Intn(nn))+" "+hx(ob), true)
 				rec.Count("copydata")
+				if i%10 == 0 {
+					// the same with a pointer whose deep copy moves the destination's arena while copyStruct is at work
+					sw8 := r.Pick(0, 8, 16)
+					dw8 := r.Pick(8, 16, 24, 32)
+					sb8 := make([]byte, sw8)
+					for k := range sb8 {
+						sb8[k] = byte(1 + r.Intn(255))
+					}
+					ob8 := make([]byte, nn*dw8)
+					for k := range ob8 {
+						ob8[k] = byte(0x80 | r.Intn(128))
+					}
+					rec.Op("M", "build copygrow "+hx(sb8)+" "+strconv.Itoa(dw8)+" "+strconv.Itoa(nn)+" "+strconv.Itoa(r.Intn(nn))+" "+hx(ob8)+" "+strconv.Itoa(r.Pick(0, 8, 100, 5000, 70000)), true)
+					rec.Count("copygrow")
+				}
 			}
 		}
 	}
